@@ -43,11 +43,18 @@ func (l *trListener) Accept() (net.Conn, error) {
 func (l *trListener) Close() error   { l.once.Do(func() { close(l.closed) }); return nil }
 func (l *trListener) Addr() net.Addr { return &net.TCPAddr{IP: net.IPv4(127, 0, 0, 1), Port: 1} }
 
-// trPump copies src to dst through an unbounded queue. A closed source does
-// not close the destination (the rig closes every end itself).
+// trPumpLimit, when > 0, bounds the bytes a relay of the in-memory WebSocket pair holds: once that much is queued
+// towards an end that does not read, the relay stops taking bytes from the writing end and a Write on it really
+// blocks - like a socket whose buffers are full. 0 = unbounded (a Write never waits for the far end's Read).
+var trPumpLimit int
+
+// trPump copies src to dst through a queue (unbounded, or bounded by trPumpLimit as it is when the pair is made).
+// A closed source does not close the destination (the rig closes every end itself).
 func trPump(src, dst net.Conn, wg *sync.WaitGroup) {
 	var mu sync.Mutex
 	var q [][]byte
+	queued, limit := 0, trPumpLimit
+	space := make(chan struct{}, 1)
 	eof := false
 	sig := make(chan struct{}, 1)
 	kick := func() {
@@ -61,10 +68,20 @@ func trPump(src, dst net.Conn, wg *sync.WaitGroup) {
 		defer wg.Done()
 		buf := make([]byte, 64<<10)
 		for {
+			for limit > 0 { // full: wait until the far end has taken something (or everything is being torn down)
+				mu.Lock()
+				full := queued >= limit && !eof
+				mu.Unlock()
+				if !full {
+					break
+				}
+				<-space
+			}
 			n, err := src.Read(buf)
 			mu.Lock()
 			if n > 0 {
 				q = append(q, append([]byte(nil), buf[:n]...))
+				queued += n
 			}
 			if err != nil {
 				eof = true
@@ -93,13 +110,25 @@ func trPump(src, dst net.Conn, wg *sync.WaitGroup) {
 				<-sig
 				continue
 			}
+			mu.Lock()
+			queued -= len(d)
+			mu.Unlock()
+			select {
+			case space <- struct{}{}:
+			default:
+			}
 			if _, err := dst.Write(d); err != nil {
 				// the far end is gone: keep draining so that the near end never blocks
 				for {
 					mu.Lock()
 					q = nil
+					queued = 0
 					done := eof
 					mu.Unlock()
+					select {
+					case space <- struct{}{}:
+					default:
+					}
 					if done {
 						return
 					}
@@ -488,6 +517,88 @@ func TestC19Ws(t *testing.T) {
 			rd := goat.NewGoatOverWebsocket(p.sc)
 			emitConc(em, idx, "ws", k, 400, concWriters(k, 400, wr.Write, rd.Read))
 			p.close()
+			em.Marker("end", idx)
+		}
+		idx++
+	}
+
+	// (5) a Write that is really BLOCKED returns once its context is done. The pair's relay is bounded here (64 KiB:
+	// a socket whose buffers are full), nobody reads the far end: a Write of a 300 KB envelope parks half way, a second
+	// Write queues behind it on the connection. Then the contexts end - by explicit cancel (with and without a far
+	// deadline on the context) or by a deadline that passes - and at the next quiescent point both calls must have
+	// returned an error. In a bubble: "parked" and "returned" are facts of the quiescent state, no timeout decides.
+	for _, variant := range []string{"cancel", "cancel-with-far-deadline", "deadline-passes"} {
+		if want(idx) {
+			em.Marker("begin", idx)
+			unguard := trGuard(em, idx, "ws-blocked-write", map[string]any{"variant": variant}, []string{"ws:blocked-write"})
+			var parked, returned [2]bool
+			var errs [2]string
+			leaked := bubble(t, func(t *testing.T) {
+				trPumpLimit = 64 << 10
+				p := newTrWsPair(t, -1)
+				trPumpLimit = 0
+				wr := goat.NewGoatOverWebsocket(p.cc)
+				var mu sync.Mutex
+				var wg sync.WaitGroup
+				var cancels [2]context.CancelFunc
+				for i := 0; i < 2; i++ {
+					trStep()
+					ctx, cancel := context.WithCancel(context.Background())
+					switch variant {
+					case "cancel-with-far-deadline":
+						ctx, cancel = context.WithTimeout(context.Background(), time.Hour)
+					case "deadline-passes":
+						ctx, cancel = context.WithTimeout(context.Background(), 5*time.Second)
+					}
+					cancels[i] = cancel
+					e := &Rpc{Id: uint64(i + 1), Header: &goatorepo.RequestHeader{Method: "/s/m", Source: "a"}, Body: &goatorepo.Body{Data: lcgBody(uint64(7+i), 300000)}}
+					wg.Add(1)
+					go func(i int) {
+						defer wg.Done()
+						err := wr.Write(ctx, e)
+						mu.Lock()
+						returned[i], errs[i] = true, fmt.Sprint(err)
+						if err == nil {
+							errs[i] = "nil"
+						}
+						mu.Unlock()
+					}(i)
+					synctest.Wait()
+					mu.Lock()
+					parked[i] = !returned[i]
+					mu.Unlock()
+				}
+				trStep()
+				if variant == "deadline-passes" {
+					time.Sleep(6 * time.Second)
+				} else {
+					cancels[0]()
+					cancels[1]()
+				}
+				synctest.Wait()
+				mu.Lock()
+				done0, done1 := returned[0], returned[1]
+				mu.Unlock()
+				returned[0], returned[1] = done0, done1 // the verdict: the state at THIS quiescent point
+				snapshot := returned
+				// tear down (releases whatever is still parked), then restore the verdict
+				cancels[0]()
+				cancels[1]()
+				p.close()
+				wg.Wait()
+				mu.Lock()
+				returned = snapshot
+				mu.Unlock()
+			})
+			unguard()
+			ok := parked[0] && parked[1] && returned[0] && returned[1] && errs[0] != "nil" && errs[1] != "nil"
+			tags := []string{"ws:blocked-write", "ws-variant:" + variant}
+			if leaked {
+				tags = append(tags, "ws-leaked")
+			}
+			em.Emit(Rec{Idx: idx, Kind: "ws-blocked-write", Desc: map[string]any{"variant": variant, "relay_limit": 64 << 10, "envelope_bytes": 300000},
+				Obs: map[string]any{"parked_before": parked, "returned_at_quiescence_after_ctx_done": returned, "errs": errs},
+				Coq: fmt.Sprintf("CAssert 6 %s", coqBool(ok)), Tags: tags})
 			em.Marker("end", idx)
 		}
 		idx++
